@@ -291,7 +291,10 @@ def check_plan(ctx, plan):
         if rt:
             heads = [c[1:] for c in rt[0]]
             rrows = [dict((h, c) for h, c in zip(heads, row) if c != "E") for row in rt[1:]]
-        grows = got.get(n, [])
+        # a row in which nothing was punched (a block redefined without any column) exists only as long as the call's table still has
+        # columns from an earlier definition: such rows carry no data and are not counted on either side
+        rrows = [r for r in rrows if r]
+        grows = [r for r in got.get(n, []) if r]
         if len(rrows) != len(grows):
             rep.viol("rows", "C04:row_count", "%s: user number %d has %d data rows over the calls, %d in the single call" % (where, n, len(grows), len(rrows)))
             continue
